@@ -163,6 +163,9 @@ type SeedPlan struct {
 	MaxList      int
 	SchedMode    int              // 0 none, 1 random yields, 2 delay by hash, 3 reverse, 4 straggler, 5 slow (ms) delay by hash
 	ForceFault   map[string]Fault // Key.String() -> fault
+	// FaultInInterceptor: the resolver faults of this plan are raised by the field interceptor that
+	// wraps the resolver (after the resolver returned) instead of by the resolver itself
+	FaultInInterceptor bool
 	ForceDir     map[string]int   // path|name -> outcome
 	ArgDirs      bool             // also let argument / input-field directives (name prefix "chk") fail
 	CancelAt     map[string]bool  // Key.String() -> cancel the context in that invocation
@@ -265,6 +268,30 @@ type Run struct {
 }
 
 type runKey struct{}
+
+// IcProbe travels from a field interceptor to the resolver it wraps: under a plan with
+// FaultInInterceptor the resolver does not fail itself but reports here which fault its key has.
+type IcProbe struct {
+	Fault Fault
+	K     Key
+}
+
+type icKey struct{}
+
+func WithIcProbe(ctx context.Context, p *IcProbe) context.Context {
+	return context.WithValue(ctx, icKey{}, p)
+}
+
+func interceptorMode(p Plan) bool {
+	sp, ok := p.(*SeedPlan)
+	return ok && sp.FaultInInterceptor
+}
+
+// InterceptorMode reports whether the run's plan raises its resolver faults in the field interceptor.
+func InterceptorMode(ctx context.Context) bool {
+	r := GetRun(ctx)
+	return r != nil && interceptorMode(r.Plan)
+}
 
 func WithRun(ctx context.Context, r *Run) context.Context { return context.WithValue(ctx, runKey{}, r) }
 func GetRun(ctx context.Context) *Run {
@@ -459,7 +486,13 @@ func (e *Env) makeResolver(meta FieldMeta, ft reflect.Type) reflect.Value {
 		}
 		zero := reflect.Zero(ft.Out(0))
 		nilErr := reflect.Zero(errType)
-		switch plan.Fault(k) {
+		flt := plan.Fault(k)
+		if pr, _ := ctx.Value(icKey{}).(*IcProbe); pr != nil && flt != FaultNone && interceptorMode(plan) {
+			// the wrapping interceptor fails on our behalf, after we returned
+			pr.Fault, pr.K = flt, k
+			flt = FaultNone
+		}
+		switch flt {
 		case FaultError:
 			done("error")
 			return []reflect.Value{zero, reflect.ValueOf(&UserError{Msg: ErrText(k)}).Convert(errType)}
